@@ -38,6 +38,12 @@ func init() {
 			{ID: "R07m", Floor: 1, Doc: "Reader.Roots hands out the root list as decoded from the payload header (or its cached copy), not a filtered or rebuilt list: the storage front-end takes a CARv2's roots from here, the blockstore from the header itself", Run: ruleR07m},
 			{ID: "R07n", Floor: 1, Doc: "equal digests are legal neighbours in a bucket (the same block stored twice, or under two codecs): no check in package index rejects two records for comparing equal", Run: ruleR07n},
 			{ID: "R07o", Floor: 6, Doc: "the identity short-circuit of the read-only store is taken only with StoreIdentityCIDs off: with it on, Get answers from the archive like the scan does (= R04d)", Run: ruleR04d},
+			{ID: "R07p", Floor: 1, Doc: "NewOffsetReadSeeker positions a re-wrapped view from its offset argument and the wrapped view's base, never from the wrapped view's cursor (a moving quantity: every lookup through the new view would be shifted by what had been consumed)", Run: ruleR07p},
+			{ID: "R07q", Floor: 2, Doc: "ReadOnly.AllKeysChan and ReadOnly.Roots read the payload through a cursor of their own (a fresh NewOffsetReadSeeker over the backing), not through the shared backing's own cursor", Run: ruleR07q},
+			{ID: "R07r", Floor: 1, Doc: "no new mutable package-level state: what a lookup answers is computed from the archive, not from what an earlier call left behind (= R13k)", Run: ruleR13k},
+			{ID: "R07s", Floor: 2, Doc: "index-backed lookups accept sections exactly as long as their CID (empty blocks), like the scan does (= R01r)", Run: ruleR01r},
+			{ID: "R07t", Floor: 1, Doc: "both front-ends run under the options the caller gave: no constructor switches StoreIdentityCIDs for itself (= R04j)", Run: ruleR04j},
+			{ID: "R07u", Floor: 1, Doc: "lookups answer from the archive, not from what an earlier call left in the object (= R08o)", Run: ruleR08o},
 		},
 	})
 }
@@ -265,7 +271,7 @@ func ruleR07b(c *Ctx, r *Report) {
 		reaches := len(callsToFunc(fn, pkgStore, "", "FindCid")) > 0
 		eachInstr(fn, func(in ssa.Instruction) {
 			if ci, ok := in.(ssa.CallInstruction); ok {
-				if h := ci.Common().StaticCallee(); h != nil && h.Blocks != nil && h.Pkg == fn.Pkg && len(callsToFunc(h, pkgStore, "", "FindCid")) > 0 {
+				if h := staticTarget(ci.Common()); h != nil && h.Blocks != nil && h.Pkg == fn.Pkg && len(callsToFunc(h, pkgStore, "", "FindCid")) > 0 {
 					reaches = true
 				}
 			}
@@ -674,20 +680,24 @@ func ruleR07n(c *Ctx, r *Report) {
 				if !ok {
 					continue
 				}
-				blk := iff.Block().Succs[0]
-				for i := 0; i < 4 && blk != nil; i++ {
-					last := blk.Instrs[len(blk.Instrs)-1]
-					if ret, ok := last.(*ssa.Return); ok {
-						if len(ret.Results) > 0 && !resultIsNilConst(ret, len(ret.Results)-1) {
-							bad = append(bad, fmt.Sprintf("%s rejects two neighbouring records whose digests compare equal (%s 0) at %s", fnKey(fn), b.Op, c.Pos(b.Pos())))
-						}
-						break
-					}
-					if _, ok := last.(*ssa.Jump); ok {
-						blk = blk.Succs[0]
+				// the returns reachable from the outcome that includes equality: all of them error returns?
+				rs := reachFromEdge(fn, Edge{From: iff.Block(), Succ: 0}, nil)
+				nret, nerr := 0, 0
+				for _, ret := range returnsOf(fn) {
+					if !rs[ret.Block()] || len(ret.Results) == 0 {
 						continue
 					}
-					break
+					last := len(ret.Results) - 1
+					if !types.Identical(ret.Results[last].Type(), types.Universe.Lookup("error").Type()) {
+						continue
+					}
+					nret++
+					if !resultIsNilConst(ret, last) {
+						nerr++
+					}
+				}
+				if nret > 0 && nerr == nret {
+					bad = append(bad, fmt.Sprintf("%s rejects two neighbouring records whose digests compare equal (%s 0) at %s", fnKey(fn), b.Op, c.Pos(b.Pos())))
 				}
 			}
 		})
